@@ -156,7 +156,7 @@ func lastInstr(b *ssa.BasicBlock) ssa.Instruction { return b.Instrs[len(b.Instrs
 func runC14rest(r *R) {
 	w := r.W
 	// ---- R1
-	r.Rule("C14-R1", "runQueue: StartContainer only for a container not in Running(), priority ≥ 1, State==Locked, type not refused earlier, KillContainer(...)==false; lockContainer only for Queued; no other caller of StartContainer", 3)
+	r.Rule("C14-R1", "runQueue: StartContainer only for a container not in Running(), priority ≥ 1, State==Locked, type not refused earlier, KillContainer(...)==false; lockContainer only for Queued; no other caller of StartContainer", 1)
 	if fn := r.NeedFn("C14-R1", "(*"+sc+".Scheduler).runQueue"); fn != nil {
 		notRunning := FalseC("_, running := running[ctr.UUID]", func(v ssa.Value) bool {
 			e, ok := Resolve1(v).(*ssa.Extract)
@@ -170,7 +170,7 @@ func runC14rest(r *R) {
 			c, _ := ResultOf(Resolve1(l.X))
 			return c != nil && bareName(CalleeName(c.Common())) == "Running" && strings.Contains(Canon(l.Index), "Container.UUID")
 		})
-		prio := NotC(LtC("ctr.Priority < 1", CanonHas("Container.Priority"), ConstIntVP(1)))
+		prio := GeC("ctr.Priority < 1", CanonHas("Container.Priority"), ConstIntVP(1))
 		stateIs := func(s string) CP {
 			return EqC("ctr.State == "+s, CanonHas("Container.State"), ConstStrVP(s))
 		}
@@ -235,7 +235,7 @@ func runC14rest(r *R) {
 	}
 
 	// ---- R2
-	r.Rule("C14-R2", "Pool.StartContainer: the worker used is a range element of wp.workers chosen only under instType==it && state==StateIdle && idleBehavior==IdleBehaviorRun; Running() unions running, starting and exited", 4)
+	r.Rule("C14-R2", "Pool.StartContainer: the worker used is a range element of wp.workers chosen only under instType==it && state==StateIdle && idleBehavior==IdleBehaviorRun; Running() unions running, starting and exited", 2)
 	if fn := r.NeedFn("C14-R2", "(*"+wk+".Pool).StartContainer"); fn != nil {
 		for _, t := range CallsIn(fn, "(*"+wk+".worker).startContainer") {
 			recv := t.Common().Args[0]
@@ -354,7 +354,7 @@ func runC14rest(r *R) {
 	}
 
 	// ---- R6
-	r.Rule("C14-R6", "container.Queue.Update: entries are overwritten only when the uuid is not in dontupdate; updateWithResp records the uuid in dontupdate; both under cq.mtx", 3)
+	r.Rule("C14-R6", "container.Queue.Update: entries are overwritten only when the uuid is not in dontupdate; updateWithResp records the uuid in dontupdate; both under cq.mtx", 2)
 	cqLock := &LockClass{Name: "cq.mtx", Classify: func(c *ssa.CallCommon) int {
 		op, recv := mutexOp(c)
 		if t, f, _, ok := FieldName(recv); ok && t == ctq+".Queue" && f == "mtx" {
